@@ -61,6 +61,22 @@ CLAIMED["C15"] = {
     "design": "5 C15",
 }
 
+CLAIMED["C13"] = {
+    "text": "Threads.tla models the four mutexes, the shared tables and each critical section of add_function, get_function, "
+            "add_conversion, the per-thread type cache refresh, use() (with its unlock-evaluate-relock protocol) and get_state as "
+            "separate lock/access steps; TLC explores every interleaving of 2-3 threads checking NoConflictingOverlap, "
+            "AllRegistrationsRetained, VisibleAfterReturn, UsedOnce, CacheNeverAhead, deadlock freedom and progress under fairness, "
+            "and three mutants of the design must fail. The real engine is then stressed with 2..16 threads; lock events and "
+            "access markers (hooks H3/H4, sequence numbers taken inside the critical sections) are validated by TLC against the lock "
+            "discipline and the data laws (ThreadsTrace.tla) so a dropped or weakened lock is rejected at the first marked access "
+            "whether or not the race manifests; per-thread results are compared with their single-threaded expectation; the same "
+            "driver under ThreadSanitizer observes unmarked accesses.",
+    "note": "Interleavings are exhaustive only in the model; real schedules are sampled (seeded stress, injected yields). Accesses "
+            "without an H4 marker are seen only by the TSan observer. set_state and load_module are not part of the stress mix.",
+    "technique": "TLA+ model checking of the locking design (TLC) + trace validation of hooked multi-threaded runs + TSan observer",
+    "design": "5 C13",
+}
+
 PENDING_REASON = "check not built yet in this session; planned (see DESIGN.md section 8)"
 
 ALL = [f"C{i:02d}" for i in range(1, 21)]
@@ -105,7 +121,7 @@ def main():
     print("claimed:", sorted(CLAIMED))
 
 
-HOOK_COMMITS = ["fd261f7"]
+HOOK_COMMITS = ["fd261f7", "640e2e5"]
 NOT_APPLICABLE = {}
 
 if __name__ == "__main__":
